@@ -28,6 +28,7 @@ type Cfg struct {
 	XHTML     bool
 	HardWraps bool
 	Align     string // "", "attr", "style": pins the table cell alignment method
+	Via       int    // 0 = standard channel; otherwise the index into Channels through which New hands over the options
 	Explicit  bool   // the renderer switches that are off are passed explicitly as renderer.WithOption(name, false)
 }
 
@@ -54,6 +55,9 @@ func (c Cfg) String() string {
 	}
 	if c.Align != "" {
 		s += "+align=" + c.Align
+	}
+	if c.Via != 0 {
+		s += fmt.Sprintf("+via=%d", c.Via)
 	}
 	if c.Explicit {
 		s += "+explicit"
@@ -108,6 +112,8 @@ func ParseCfg(s string) (Cfg, error) {
 			c.Explicit = true
 		case strings.HasPrefix(f, "align="):
 			c.Align = strings.TrimPrefix(f, "align=")
+		case strings.HasPrefix(f, "via="):
+			c.Via, _ = strconv.Atoi(strings.TrimPrefix(f, "via="))
 		default:
 			return c, fmt.Errorf("unknown flag %q", f)
 		}
@@ -391,13 +397,16 @@ func (c Cfg) New() goldmark.Markdown {
 	if c.Explicit {
 		return c.NewVia(4)
 	}
+	if c.Via != 0 {
+		return c.NewVia(c.Via)
+	}
 	return goldmark.New(goldmark.WithExtensions(c.Extenders()...),
 		goldmark.WithParserOptions(c.ParserOptions()...),
 		goldmark.WithRendererOptions(c.RendererOptions()...))
 }
 
 // Channels lists the ways NewVia can hand the same options to the library.
-var Channels = []string{"standard", "direct-constructors", "late-AddOptions", "split", "explicit-false"}
+var Channels = []string{"standard", "direct-constructors", "late-AddOptions", "split", "explicit-false", "heading-parser-constructors", "generic-parser-WithOption"}
 
 // explicitRendererOptions returns the renderer options of c with every switch that is off passed explicitly as
 // renderer.WithOption(name, false) (the generic option channel every node renderer's SetOption sees).
@@ -464,8 +473,45 @@ func (c Cfg) NewVia(ch int) goldmark.Markdown {
 		return goldmark.New(goldmark.WithExtensions(c.Extenders()...), goldmark.WithParserOptions(c.ParserOptions()...),
 			goldmark.WithRendererOptions(c.explicitRendererOptions()...))
 	}
+	if ch == 5 {
+		// heading options handed to the heading parsers' own constructors in a hand-built block parser list
+		var ho []parser.HeadingOption
+		if c.AutoID {
+			ho = append(ho, parser.WithAutoHeadingID())
+		}
+		if c.Attr {
+			ho = append(ho, parser.WithHeadingAttribute())
+		}
+		bps := []util.PrioritizedValue{
+			util.Prioritized(parser.NewSetextHeadingParser(ho...), 100),
+			util.Prioritized(parser.NewThematicBreakParser(), 200),
+			util.Prioritized(parser.NewListParser(), 300),
+			util.Prioritized(parser.NewListItemParser(), 400),
+			util.Prioritized(parser.NewCodeBlockParser(), 500),
+			util.Prioritized(parser.NewATXHeadingParser(ho...), 600),
+			util.Prioritized(parser.NewFencedCodeBlockParser(), 700),
+			util.Prioritized(parser.NewBlockquoteParser(), 800),
+			util.Prioritized(parser.NewHTMLBlockParser(), 900),
+			util.Prioritized(parser.NewParagraphParser(), 1000),
+		}
+		p := parser.NewParser(parser.WithBlockParsers(bps...), parser.WithInlineParsers(parser.DefaultInlineParsers()...),
+			parser.WithParagraphTransformers(parser.DefaultParagraphTransformers()...))
+		return goldmark.New(goldmark.WithParser(p), goldmark.WithExtensions(c.Extenders()...), goldmark.WithRendererOptions(c.RendererOptions()...))
+	}
+	if ch == 6 {
+		// parser options through the generic name/value channel
+		var po []parser.Option
+		if c.AutoID {
+			po = append(po, parser.WithOption(parser.OptionName("AutoHeadingID"), true))
+		}
+		if c.Attr {
+			po = append(po, parser.WithOption(parser.OptionName("Attribute"), true))
+		}
+		return goldmark.New(goldmark.WithExtensions(c.Extenders()...), goldmark.WithParserOptions(po...), goldmark.WithRendererOptions(c.RendererOptions()...))
+	}
 	cc := c
 	cc.Explicit = false
+	cc.Via = 0
 	return cc.New()
 }
 
